@@ -5,6 +5,7 @@ initial file / job states each, name patterns from a fixed list."""
 import itertools
 import json
 import os
+import shutil
 import tempfile
 import time
 
@@ -188,7 +189,7 @@ def run_c05(seed, focus):
             if problems:
                 return result(problems, tried, "status/dry-run/run agree, previews change nothing, re-run is a no-op")
         # requested targets: a name, a glob over several, a pattern matching nothing (then nothing at all is submitted)
-        for pats in (("nomatch*",), (targets[-1]["name"],), (targets[0]["name"], "nomatch"), ("*",)):
+        for pats in (("nomatch*",), (targets[-1]["name"],), (targets[0]["name"], "nomatch"), ("*",), ("[ab]",), ("[!a]", "?")):
             tried += 1
             check_previews_and_run(f"{wname}/requested={list(pats)}", targets, outs[:1], {}, problems, patterns=pats)
             if problems:
@@ -289,19 +290,23 @@ def run_c18(seed, focus):
                 p.close()
             if problems:
                 return result(problems, tried, "spec-hashes")
-        # default: hashing off -> nothing is ever recorded
-        tried += 1
-        p = Project(targets)
-        try:
-            prepare(p, targets, [], time.time())
-            p.gwf("run")
-            p.gwf("touch")
-            if hashes(p):
-                problems.append(f"{wname}: spec hashes recorded although use_spec_hashes is off: {hashes(p)}")
-        finally:
-            p.close()
-        if problems:
-            return result(problems, tried, "spec-hashes")
+        # hashing off (the default, or switched off with any value `gwf config set` stores as false / 0): nothing is recorded
+        for off in (None, "no", "false", "0"):
+            tried += 1
+            p = Project(targets)
+            try:
+                prepare(p, targets, [], time.time())
+                if off is not None:
+                    p.gwf("config", "set", "use_spec_hashes", off)
+                p.gwf("run")
+                p.gwf("touch")
+                if hashes(p):
+                    problems.append(f"{wname}: spec hashes recorded although use_spec_hashes is "
+                                    f"{'unset' if off is None else 'set to ' + off}: {hashes(p)}")
+            finally:
+                p.close()
+            if problems:
+                return result(problems, tried, "spec-hashes")
     return result(problems, tried, "spec-hashes")
 
 
@@ -469,6 +474,51 @@ def run_c03_info(seed, focus):
     return result(problems, tried, "info relations")
 
 
+SYMLINK_WF = """
+import os
+from gwf import Workflow
+gwf = Workflow()
+here = os.path.dirname(os.path.realpath(__file__))       # a common idiom for naming project files absolutely
+gwf.target('make', inputs=['src.txt'], outputs=['table.txt']) << 'echo make'
+gwf.target('use', inputs=[os.path.join(here, 'table.txt')], outputs=['report.txt']) << 'echo use'
+"""
+
+
+def check_symlinked_project(problems):
+    """C19: `-f` through a symbolic link to the project gives the same graph (edges, states, state directory) as
+    running inside the project"""
+    tried = 0
+    p = Project([], source=SYMLINK_WF)
+    holder = tempfile.mkdtemp(prefix="gwfverif-")
+    try:
+        p.touch("src.txt", time.time() - 1000)
+        link = os.path.join(holder, "proj")
+        os.symlink(p.dir, link)
+        views = {}
+        for label, cwd, farg in (("inside the project", p.dir, None), ("-f <link>/workflow.py", holder, os.path.join(link, "workflow.py")),
+                                 ("-f proj/workflow.py from the directory holding the link", holder, "proj/workflow.py"),
+                                 ("inside the project entered through the link", link, None)):
+            tried += 1
+            code, out = p.gwf("info", cwd=cwd, file_arg=farg)
+            try:
+                obj = json.loads(out[out.index("{"):])
+                views[label] = {k: (sorted(v["dependencies"]), sorted(v["dependents"])) for k, v in obj.items()}
+            except ValueError:
+                views[label] = f"failed (exit {code}): {out.strip()[-160:]}"
+            if os.path.exists(os.path.join(holder, ".gwf")):
+                problems.append(f"symlink: {label}: a .gwf directory was created next to the link instead of in the project")
+        base = views["inside the project"]
+        if base != {"make": ([], ["use"]), "use": (["make"], [])}:
+            problems.append(f"symlink: inside the project the graph is {base}")
+        for label, v in views.items():
+            if v != base:
+                problems.append(f"symlink: {label}: gwf info gives {v}, inside the project it gives {base}")
+    finally:
+        p.close()
+        shutil.rmtree(holder, ignore_errors=True)
+    return tried
+
+
 def run_c19(seed, focus):
     """C19: paths mean the same wherever gwf is invoked from; map names are distinct and deterministic;
     the workflow file is found in the nearest ancestor; the state directory lives next to it"""
@@ -505,6 +555,8 @@ def run_c19(seed, focus):
             elif v[1] != base[1]:
                 problems.append(f"{label}: status differs from the project root: {v[1]} vs {base[1]}")
         os.rmdir(other)
+        # the project reached through a symbolic link (home -> project storage): same graph and states
+        tried += check_symlinked_project(problems)
         # nearest ancestor wins
         open(p.path("sub/workflow.py"), "w").write("from gwf import Workflow\ngwf = Workflow()\ngwf.target('inner', inputs=[], outputs=[]) << 'x'\n")
         tried += 1
@@ -571,6 +623,20 @@ def run_c20_cli(seed, focus):
             if saved_env is not None:
                 os.environ["NO_COLOR"] = saved_env
         p.gwf("config", "unset", "no_color")
+        # a backend option from the project configuration reaches the backend, also when its value is false:
+        # with accounting switched off the Slurm backend must not consult sacct
+        tried += 1
+        json.dump({"a": "1000"}, open(p.path(".gwf/slurm-backend-tracked.json"), "w"))
+        for val, expect_sacct in (("yes", True), ("no", False)):
+            p.gwf("config", "set", "backend.slurm.accounting_enabled", val)
+            n0 = len([c for c in p.slurm()["calls"] if c[0] == "sacct"])
+            p.gwf("status")
+            n1 = len([c for c in p.slurm()["calls"] if c[0] == "sacct"])
+            if (n1 > n0) != expect_sacct:
+                problems.append(f"backend.slurm.accounting_enabled={val} in the project configuration: sacct was "
+                                f"{'called' if n1 > n0 else 'not called'} by `gwf status` (the option did not reach the backend)")
+        p.gwf("config", "unset", "backend.slurm.accounting_enabled")
+        os.unlink(p.path(".gwf/slurm-backend-tracked.json"))
         # backend: flag over configuration
         tried += 1
         p.gwf("config", "set", "backend", "slurm")
@@ -597,6 +663,8 @@ def run_c15(seed, focus):
     """gwf clean: only unprotected declared outputs of the selected (non-endpoint unless --all) targets"""
     problems, tried = [], 0
     tried += check_clean_directory_output(problems)
+    if not problems:
+        tried += check_clean_protect_is_per_target(problems)
     if problems:
         return result(problems, tried, "clean")
     for wname, targets in WORKFLOWS.items():
@@ -647,6 +715,33 @@ def run_c15(seed, focus):
     return result(problems, tried, "clean")
 
 
+def check_clean_protect_is_per_target(problems):
+    """C15: 'not protected by THAT target': an unprotected output of a selected target goes even when another selected
+    target lists the same file in its own protect clause (different spelling included)"""
+    targets = [T("a", ["src.txt"], ["a.txt"]), T("b", ["a.txt"], ["b.txt", "b.log"], protect=["./b.log", "sub/../a.txt"]),
+               T("c", ["b.txt"], ["c.txt"])]
+    tried = 0
+    for args in (["-f"], ["--all", "-f"], ["-f", "a", "b"]):
+        tried += 1
+        p = Project(targets)
+        try:
+            now = time.time()
+            prepare(p, targets, ["a.txt", "b.txt", "b.log", "c.txt"], now)
+            before = p.snapshot()
+            p.gwf("clean", *args)
+            removed = sorted(k for k in set(before) - set(p.snapshot()) if not k.startswith(".gwf"))
+            want = ["a.txt", "b.txt"] + (["c.txt"] if "--all" in args else [])
+            if removed != want:
+                problems.append(f"protect: gwf clean {' '.join(args)} with b protecting its own b.log and (pointlessly) a's "
+                                f"a.txt removed {removed}, expected {want}: protection applies to the protecting target's "
+                                f"own outputs only")
+        finally:
+            p.close()
+        if problems:
+            break
+    return tried
+
+
 def check_clean_directory_output(problems):
     """C15: a declared output that is a DIRECTORY: whatever clean does with it, files inside it that are protected, that
     belong to an endpoint (without --all), that are source inputs or that are unrelated must survive"""
@@ -684,15 +779,18 @@ def run_c16(seed, focus):
     for wname, targets in WORKFLOWS.items():
         deps = deps_of(targets)
         for args in ([], [targets[-1]["name"]], [targets[0]["name"]], ["nomatch"]):
-            for existing in ([], [o for t in targets for o in t["outputs"]][::2]):
+            allouts = [o for t in targets for o in t["outputs"]]
+            for existing, stale in (([], False), (allouts[::2], False), (allouts, True), (allouts[:2], True)):
                 tried += 1
                 p = Project(targets)
                 try:
                     now = time.time()
                     prepare(p, targets, existing, now)
-                    for rel in existing:
+                    for k_, rel in enumerate(existing):
                         open(p.path(rel), "w").write("content of " + rel)
-                        os.utime(p.path(rel), (now - 300, now - 300))
+                        # "stale": the first existing output is older than the source, later ones are newer than it
+                        age = (2000 - 100 * k_) if stale else 300
+                        os.utime(p.path(rel), (now - age, now - age))
                     p.touch("unrelated.txt", now - 700)
                     before = p.snapshot()
                     m0 = os.stat(p.path("unrelated.txt")).st_mtime
